@@ -48,7 +48,10 @@ def keySyms (sep : Char) : List Char := [sep, '(', ')', '[', ']', '^', '$', '%',
 def sectionSyms (sep : Char) : List Char := '\\' :: keySyms sep
 
 /-- `YAMLPath.escape_path_section(section, pathsep)` -/
-def escapePathSection (sep : Char) (v : Str) : Str := ensureEscaped (sectionSyms sep) v
+def escapePathSection (sep : Char) (v : Str) : Str :=
+  let e := ensureEscaped (sectionSyms sep) v
+  -- a leading `/` would switch the inferred separator (fix e9c869e)
+  if e.head? = some '/' ∧ sep ≠ '/' then '\\' :: e else e
 
 /-- candidate regular-expression delimiters, in order of preference (after `fixes/C08-1.patch`) -/
 def regexDelims : List Char := ['/', '|', '#', '@', ',', ';', ':', '_', '-']
